@@ -64,6 +64,23 @@ def one(ctx, pts, kind, queries, family):
             real = vf * vf if kind in ('rmsle', 'rmspe') else vf
             if not close(real, q, 1e-12, 1e-300):
                 ctx.fail('predicate', 'global-cost-equals-its-definition(partial sums, divisor, clip)', site, case, dict(query=qi, impl=real, model=float(q)))
+            if kind == 'rmsle':
+                # no exact-Q definition (logarithms): the segment cost against the DEFINITION sum((log(y+1) - log(y_hat+1))^2), with y_hat the end-point
+                # line evaluated about the segment's first point, computed here independently of compute_partial_cost
+                for e_f, (a, b) in zip(errs, zip(red, red[1:])):
+                    if b - a + 1 <= 2:
+                        continue
+                    xs_, ys_ = pts[a:b + 1, 0], pts[a:b + 1, 1]
+                    if float(np.max(np.abs(xs_))) > 1e4 * float(xs_[-1] - xs_[0]):
+                        continue
+                    yh_ = ys_[0] + (ys_[-1] - ys_[0]) / (xs_[-1] - xs_[0]) * (xs_ - xs_[0])
+                    if np.any(yh_ <= -1) or np.any(ys_ <= -1):
+                        continue
+                    ref = float(np.sum(np.square(np.log(ys_ + 1.0) - np.log(yh_ + 1.0))))
+                    if abs(e_f - ref) > 1e-9 * (abs(ref) + 1e-12 * len(xs_)):
+                        ctx.fail('predicate', 'segment-partial-cost-equals-its-definition(rmsle: sum of squared log differences)', f'evaluation.compute_partial_cost[{kind}]', case,
+                                 dict(segment=[a, b], impl=e_f, expected=ref))
+                        break
             if kind != 'rmsle':
                 # fully exact model from the coordinates
                 ex = [F(d.call('segErrQ', [kind, core.rats(pts[:, 0]), core.rats(y), str(a), str(b)])[0]) if b - a + 1 > 2 else F(0) for a, b in zip(red, red[1:])]
@@ -78,7 +95,15 @@ def one(ctx, pts, kind, queries, family):
                         ctx.tag('ratio-metric-near-zero-y(exact comparison skipped: rounding of y_hat is amplified by the eps guard)')
                         continue
                     # rounding noise of y_hat = m*x+b is ~1e-16*ymax per point; squares / ratios of it stay below these scales
-                    scale = (ymax ** 2) * len(seg) if kind == 'r2' else float(len(seg))
+                    # (R2 partial cost = RSS of the segment: its rounding scale is the SPREAD of the segment, not the magnitude of y - a base line of
+                    # 2^30 with a swing of a few units must be judged by the swing)
+                    # of 2^30 with a swing of a few units must be judged by the swing).  y_hat = m*x + b is evaluated at the magnitude of y: each residual carries
+                    # delta = 8*eps*max|y| of rounding noise, so the RSS carries 2*sqrt(len*RSS)*delta + len*delta^2 (Cauchy-Schwarz); that and nothing more is granted
+                    if kind == 'r2':
+                        delta = 32 * np.finfo(float).eps * ymax
+                        scale = 1e9 * (2 * math.sqrt(len(seg) * max(float(e_q), 0.0)) * delta + len(seg) * delta * delta)
+                    else:
+                        scale = float(len(seg))
                     if not close(e_f, e_q, 1e-9, scale):
                         ctx.fail('predicate', 'segment-partial-cost-equals-its-definition', f'evaluation.compute_partial_cost[{kind}]', case, dict(segment=[a, b], impl=e_f, model=float(e_q)))
                         break
